@@ -217,7 +217,7 @@ def find_function(tree, name):
 # ambient.convert_units : the `convert` dict
 # ----------------------------------------------------------------------------------------
 
-def read_ambient_table(repo):
+def read_ambient_table(repo, strict=True):
     path = os.path.join(repo, 'tamoc', 'ambient.py')
     src = open(path).read()
     fn = find_function(ast.parse(src), 'convert_units')
@@ -253,7 +253,7 @@ def read_ambient_table(repo):
                 norm = ''.join((txt or '').split()).replace('\\', '')
                 if norm == 'data[:,i]*convert[units[i]][0]+convert[units[i]][1]':
                     ok = True
-    if not ok:
+    if not ok and strict:
         raise Refused('ambient.convert_units: the per-column formula is no longer `data[:,i] * convert[units[i]][0] + convert[units[i]][1]`')
     return rows
 
@@ -385,10 +385,12 @@ def read_csv(path):
             'text': {n: t for n, _v, t in rows}}
 
 
-def load_tables(repo):
+def load_tables(repo, strict=True):
+    """strict=False: still return the parsed ambient table when the per-column FORMULA of convert_units is not the documented
+    `value * factor + offset` (used by the failing-input search of C15 after the translator refused the source)"""
     d = os.path.join(repo, 'tamoc', 'data')
     return {
-        'ambient': read_ambient_table(repo),
+        'ambient': read_ambient_table(repo, strict),
         'chem_rules': read_chem_chain(repo),
         'chem': read_csv(os.path.join(d, 'ChemData.csv')),
         'bio': read_csv(os.path.join(d, 'BioData.csv')),
